@@ -68,10 +68,16 @@ def Op.target : Op → Option Nat
 def mapView (h : Heap) (s : Set) : List (Nat × Bytes) :=
   (List.range 64).filterMap fun k => (getAttr h s k).map fun v => (k, v)
 
+/-- the mask fits `attr.Mask` (uint8; always so for the Go value) and every bit set in
+it is a key declared in `<pkg>test.allKeys`. -/
+def maskKnown (allKeys : List Int) (m : Nat) : Bool :=
+  decide (m < 2 ^ C19AttrKeys.maskWidth) &&
+  (List.range C19AttrKeys.maskWidth).all fun bit => !m.testBit bit || allKeys.contains (-((2 ^ bit : Nat) : Int))
+
 /-- mask bits and attribute keys are declared in `<pkg>test.allKeys`, and the flag
 keys that live in the map (dep.Selector) carry the empty value. -/
 def knownKeys (allKeys flagKeys : List Int) (h : Heap) (s : Set) : Bool :=
-  ((List.range C19AttrKeys.maskWidth).all fun bit => !s.mask.testBit bit || allKeys.contains (-((2 ^ bit : Nat) : Int))) &&
+  maskKnown allKeys s.mask &&
   (mapView h s).all fun kv =>
     allKeys.contains (kv.1 : Int) && (!flagKeys.contains (kv.1 : Int) || kv.2.isEmpty)
 
@@ -98,6 +104,9 @@ def quotedItemsOK : List (Bytes × Option Bytes) → Bool
 /-- every value that must be written quoted is the last item written and is
 `depQuotedOK` (negation: F-C19-deptest-quoted). -/
 def depTextOK (h : Heap) (s : Set) : Bool := quotedItemsOK (depItems h s)
+
+/-- no value has to be written quoted (implies `depTextOK`). -/
+def depPlain (h : Heap) (s : Set) : Bool := (depItems h s).all fun it => it.2.isNone
 
 /-! ### observations -/
 
